@@ -40,6 +40,15 @@ def evaluate(ck, recs):
     fc = [r for r in recs if r["k"] == "fc"]
     rc = ck.coq_eval(IMPORTS, "contra_case", "check_contra", [contra_term(r) for r in contra], shard=2500, tag="contra")
     rf = ck.coq_eval(IMPORTS, "fc_obs", "check_fc", [fc_term(r) for r in fc], shard=1500, tag="fc")
+    rd = ck.coq_eval(IMPORTS, "fc_obs", "check_dispatch", [fc_term(r) for r in fc], shard=1500, tag="fcd")
+    for r, code in zip(fc, rd or []):
+        if code != 0:
+            f = dict(kind="input", key="c07:dispatch:%s" % ("spec" if code >= 2 else "model"), case=r,
+                     what="Executer.process tests the fork-choice predicates in an order that classifies this tip/incoming pair "
+                          "differently from LIP-0014: " + json.dumps(r),
+                     theorem_or_correspondence="C07_process_dispatch_order (Gen/ForkOrder.v regenerated from execute.go)")
+            f["spec_violated"] = code >= 2
+            ck.failures.append(f)
     for rs, res, name in ((contra, rc, "AreDistinctHeadersContradicting"), (fc, rf, "forkchoice predicates")):
         if res is None:
             continue
@@ -64,7 +73,10 @@ def evaluate(ck, recs):
 
 
 def run(ck):
-    ck.prove(extra_targets=["Corr/C07.vo"])
+    ck.translate("forkorder", "Gen/ForkOrder.v")
+    if not ck.prove(extra_targets=["Corr/C07.vo"]):
+        # a proof obligation broke: still build the evaluators so that the search for a concrete failing input can run
+        ck.coq_make(["-k", "Corr/C07.vo"])
     binp = ck.go_build("c07")
     if not binp:
         return
@@ -76,6 +88,18 @@ def run(ck):
     if recs is None:
         return
     evaluate(ck, recs)
+    # the window clause (C07_window_complete) lives on the liskbft vote model: tie it here too, on header histories that
+    # cross the 3-round window (IsHeaderContradictingChain + window contents compared after every block)
+    from props import c02
+    b2 = ck.go_build("c02")
+    if b2:
+        hrecs = ck.run_harness(b2, ["-n", "120", "-long", "80"] if ck.tier == "quick" else ["-n", "3000", "-long", "2000"],
+                               out_name="hist.jsonl")
+        if hrecs is not None:
+            ck.coq_make(["Corr/C02.vo"])
+            c02.evaluate(ck, hrecs, tag="hist")
+            ck.extra["liskbft_histories"] = len(hrecs)
+            ck.extra["liskbft_contradiction_flags_seen"] = sum(1 for c in hrecs for o in c["obs"] if o["contra"])
     for r in recs[:1] + [x for x in recs if x["k"] == "contra" and x["r12"]][:1] + [x for x in recs if x["k"] == "fc"][:2]:
         ck.sample(r)
     ck.cov["rule"] = ("contradiction: exhaustive over all ordered header pairs with height/maxHeightGenerated/maxHeightPrevoted "
